@@ -529,7 +529,8 @@ def main(argv):
             for c in witness.load_candidates():
                 if c.get("property") and pid not in c["property"]:
                     continue
-                if not re.match(c["for"].split("/")[0] + "$", rec["unit"]) and not any(re.match(alt + "$", rec["unit"]) for alt in c["for"].split("/")[0].split("|")):
+                # the candidate is attached to this unit if one of the alternatives of its `for` pattern starts with "<unit>/"
+                if not re.search(r"(^|[|(])" + re.escape(rec["unit"]) + "/", c["for"]):
                     continue
                 rep, obs = witness.run_candidate(c)
                 if rep:
